@@ -57,8 +57,10 @@ theorem getterChecked_conforms {w : World Val} {c : Cfg} {n : Nat} {v : Val}
     · split at h <;> cases h
     · simp only [hs, hm, Bool.and_self, if_true] at h
       split at h
-      · cases h; assumption
       · cases h
+      · split at h
+        · cases h; assumption
+        · cases h
 
 theorem assign_eq_delivered (w : World Val) (c : Cfg) (s : St Val) (v : Val) :
     assign w c s v =
@@ -70,22 +72,30 @@ theorem assign_eq_delivered (w : World Val) (c : Cfg) (s : St Val) (v : Val) :
   by_cases h1 : c.onSpecClass = false
   · simp [h1]
   · simp only [h1, if_false]
-    by_cases h2 : isSentinel w (if c.managed then prepareAttrValue w c v else v) = true
-    · simp [h2]
-    · by_cases h3 : (c.managed && !w.conforms (if c.managed then prepareAttrValue w c v else v)) = true
-      · simp [h2, h3]
-      · simp [h2, h3]
+    cases hp : (if c.managed then prepareAttrValue w c v else .ok v) with
+    | error e => rfl
+    | ok v' =>
+      simp only
+      by_cases h2 : isSentinel w v' = true
+      · simp [h2]
+      · by_cases h3 : (c.managed && !w.conforms v') = true
+        · simp [h2, h3]
+        · simp [h2, h3]
 
 theorem delivered_conforms {w : World Val} {c : Cfg} {v v' : Val}
     (hs : c.onSpecClass = true) (hm : c.managed = true)
     (h : delivered w c v = .deliver v') : w.conforms v' = true := by
   unfold delivered at h
   simp only [hs, hm, Bool.true_and, if_true, Bool.true_eq_false, if_false] at h
-  by_cases h2 : isSentinel w (prepareAttrValue w c v) = true
-  · simp [h2] at h
-  · by_cases h3 : w.conforms (prepareAttrValue w c v) = true
-    · simp [h2, h3] at h; subst h; exact h3
-    · simp [h2, h3] at h
+  cases hp : prepareAttrValue w c v with
+  | error e => simp [hp] at h
+  | ok x =>
+    simp only [hp] at h
+    by_cases h2 : isSentinel w x = true
+    · simp [h2] at h
+    · by_cases h3 : w.conforms x = true
+      · simp [h2, h3] at h; subst h; exact h3
+      · simp [h2, h3] at h
 
 /-- One step of the Impl model and of the specification machine, started in
 related states, give the same output and end in related states. -/
@@ -272,6 +282,149 @@ theorem slot_stable (w : World Val) (c : Cfg) (v : Val) (hg : (c.overridable || 
     · exact hstep.2
     · exact this.2 o ho
 
+
+/-- An operation that raises leaves the whole state (slot, underlying state,
+accessor log) exactly as it was: nothing is written on any failing exit path of
+`__get__` (getter, preparer, type check), of the assignment layer, of `__set__`
+or of `__delete__`. For ANY state, reachable or not. -/
+theorem step_failed_unchanged (w : World Val) (c : Cfg) (s : St Val) (op : Op Val)
+    (h1 : ∀ v, (step w c s op).2 ≠ .val v) (h2 : (step w c s op).2 ≠ .done) :
+    (step w c s op).1 = s := by
+  cases op with
+  | bump => simp [step] at h2
+  | read =>
+    simp only [step, pget] at h1 h2 ⊢
+    split
+    · rfl
+    · split
+      · rename_i v hg
+        split at h1
+        · rename_i hh; simp [hh] at *
+        · simp only [hg] at h1
+          exact absurd rfl (h1 v)
+      · rfl
+  | assign v =>
+    simp only [step, assign_eq_delivered] at h1 h2 ⊢
+    split
+    · rfl
+    · rfl
+    · rename_i v' hd
+      simp only [hd] at h1 h2
+      unfold pset at h1 h2 ⊢
+      split
+      · split
+        · rename_i hfs hov; simp [hfs, hov] at h2
+        · rfl
+      · rename_i hfs; simp [hfs] at h2
+  | delete =>
+    simp only [step, pdelete] at h1 h2 ⊢
+    split
+    · split
+      · rename_i hfd hh; simp [hfd, hh] at h2
+      · rfl
+    · rename_i hfd; simp [hfd] at h2
+
+/-! ## class layouts -/
+
+theorem resolveFrom_managed (l : List ClassDesc) : ∀ st : Resolved × Bool,
+    (resolveFrom st l).1.managed = (st.1.managed || l.any (fun k => k.spec && k.annotates)) := by
+  induction l with
+  | nil => intro st; simp [resolveFrom]
+  | cons k l ih =>
+    intro st
+    have := ih (resolveStep st k)
+    simp only [resolveFrom, List.foldl_cons] at this ⊢
+    rw [this]
+    obtain ⟨⟨os, m, hp⟩, pv⟩ := st
+    obtain ⟨sp, de, an, pr⟩ := k
+    cases sp <;> cases an <;> cases m <;> cases de <;> simp [resolveStep]
+
+theorem resolveFrom_onSpec (l : List ClassDesc) : ∀ st : Resolved × Bool,
+    (resolveFrom st l).1.onSpecClass = (st.1.onSpecClass || l.any (fun k => k.spec)) := by
+  induction l with
+  | nil => intro st; simp [resolveFrom]
+  | cons k l ih =>
+    intro st
+    have := ih (resolveStep st k)
+    simp only [resolveFrom, List.foldl_cons] at this ⊢
+    rw [this]
+    obtain ⟨⟨os, m, hp⟩, pv⟩ := st
+    obtain ⟨sp, de, an, pr⟩ := k
+    cases sp <;> cases an <;> cases m <;> cases de <;> simp [resolveStep]
+
+theorem resolveFrom_prepVisible (l : List ClassDesc) : ∀ st : Resolved × Bool,
+    (resolveFrom st l).2 = (st.2 || l.any (fun k => k.prep)) := by
+  induction l with
+  | nil => intro st; simp [resolveFrom]
+  | cons k l ih =>
+    intro st
+    have := ih (resolveStep st k)
+    simp only [resolveFrom, List.foldl_cons] at this ⊢
+    rw [this]
+    obtain ⟨⟨os, m, hp⟩, pv⟩ := st
+    obtain ⟨sp, de, an, pr⟩ := k
+    cases sp <;> cases an <;> cases m <;> cases de <;> simp [resolveStep, Bool.or_assoc]
+
+/-- A preparer is in effect only if some class of the chain defines one, and
+only on a managed attribute. -/
+theorem resolveFrom_hasPreparer (l : List ClassDesc) : ∀ st : Resolved × Bool,
+    (st.1.hasPreparer = true → st.2 = true ∧ st.1.managed = true) →
+    (resolveFrom st l).1.hasPreparer = true →
+      (resolveFrom st l).2 = true ∧ (resolveFrom st l).1.managed = true := by
+  induction l with
+  | nil => intro st h; simpa [resolveFrom] using h
+  | cons k l ih =>
+    intro st h
+    simp only [resolveFrom, List.foldl_cons]
+    apply ih (resolveStep st k)
+    revert h
+    obtain ⟨⟨os, m, hp⟩, pv⟩ := st
+    obtain ⟨sp, de, an, pr⟩ := k
+    cases sp <;> cases an <;> cases m <;> cases de <;> cases hp <;> cases pv <;> cases pr <;>
+      simp [resolveStep]
+
+theorem resolveFrom_append (st : Resolved × Bool) (l1 l2 : List ClassDesc) :
+    resolveFrom st (l1 ++ l2) = resolveFrom (resolveFrom st l1) l2 := by
+  simp [resolveFrom, List.foldl_append]
+
+/-- Well-formedness of a walk state: managed only on a spec class; a preparer
+only on a managed attribute and only when `_prepare_x` resolves. -/
+def WalkWF (st : Resolved × Bool) : Prop :=
+  (st.1.managed = true → st.1.onSpecClass = true) ∧
+  (st.1.hasPreparer = true → st.1.managed = true ∧ st.2 = true)
+
+theorem walkWF_init : WalkWF (Resolved.none, false) := by simp [WalkWF, Resolved.none]
+
+theorem resolveStep_wf (st : Resolved × Bool) (k : ClassDesc) (h : WalkWF st) :
+    WalkWF (resolveStep st k) := by
+  revert h
+  obtain ⟨⟨os, m, hp⟩, pv⟩ := st
+  obtain ⟨sp, de, an, pr⟩ := k
+  cases sp <;> cases an <;> cases m <;> cases de <;> cases hp <;> cases pv <;> cases pr <;> cases os <;>
+    simp [resolveStep, WalkWF]
+
+theorem resolveFrom_wf (l : List ClassDesc) : ∀ st, WalkWF st → WalkWF (resolveFrom st l) := by
+  induction l with
+  | nil => intro st h; simpa [resolveFrom] using h
+  | cons k l ih =>
+    intro st h
+    simp only [resolveFrom, List.foldl_cons]
+    exact ih _ (resolveStep_wf st k h)
+
+theorem resolveStep_managed (st : Resolved × Bool) (k : ClassDesc) :
+    (resolveStep st k).1.managed = (st.1.managed || (k.spec && k.annotates)) := by
+  obtain ⟨⟨os, m, hp⟩, pv⟩ := st
+  obtain ⟨sp, de, an, pr⟩ := k
+  cases sp <;> cases an <;> cases m <;> cases de <;> simp [resolveStep]
+
+/-- With an empty right chain the join is an ordinary step of the chain. -/
+theorem joinBases_none (a : Resolved × Bool) (leaf : ClassDesc) (h : WalkWF a) :
+    joinBases a (Resolved.none, false) leaf = resolveStep a leaf := by
+  revert h
+  obtain ⟨⟨os, m, hp⟩, pv⟩ := a
+  obtain ⟨sp, de, an, pr⟩ := leaf
+  cases sp <;> cases an <;> cases m <;> cases de <;> cases hp <;> cases pv <;> cases pr <;> cases os <;>
+    simp [joinBases, resolveStep, WalkWF, Resolved.none]
 
 /-! ## classproperty -/
 
